@@ -6,7 +6,11 @@ from pyvc.shapes import Maker, T
 from .shapes_geonet import LPV
 
 LTE = "flexstack.geonet.location_table:LocationTableEntry"
-ENTRY = T.obj(LTE, position_vector=LPV, ls_pending=T.bool, is_neighbour=T.bool, pdr=T.float(0))
+from .shapes_geonet import GNADDR, PV
+VALID_LPV = T.rec(f"{PV}:LongPositionVector", gn_addr=GNADDR, tst=T.rec(f"{PV}:TST", msec=T.int(0, 2 ** 32 - 1)),
+                  latitude=T.int(-2 ** 31, 2 ** 31 - 1), longitude=T.int(-2 ** 31, 2 ** 31 - 1),
+                  s=T.int(-2 ** 14, 2 ** 14 - 1), h=T.int(0, 2 ** 16 - 1))
+ENTRY = T.obj(LTE, position_vector=VALID_LPV, ls_pending=T.bool, is_neighbour=T.bool, pdr=T.float(0))
 
 
 def h_location_table(e, st, o, name, args, kwargs):
@@ -25,6 +29,22 @@ def h_location_table(e, st, o, name, args, kwargs):
                 yield st, v
                 return
         s1, ent = Maker(e).make(st, ENTRY, e.fresh("loct_entry"))
+        updated = False
+        for lk in st.ghost.get("lt_last_key", ()):
+            if z3.is_true(z3.simplify(e.eq(st, lk, key))):
+                updated = True
+        e.used_assumptions.add("location-table invariant (assumed at Router level): stored position vectors are "
+                               "field-valid, and a neighbour entry's position vector carries the address it is keyed by")
+        pv = s1.obj(ent).f["position_vector"]
+        if isinstance(key, Rec) and "mid" in key.f:
+            same = z3.And(e.eq(s1, pv.f["gn_addr"].f["m"], key.f["m"]), e.eq(s1, pv.f["gn_addr"].f["st"], key.f["st"]),
+                          e.eq(s1, pv.f["gn_addr"].f["mid"].f["mid"], key.f["mid"].f["mid"]))
+            s1 = s1.assume(same if updated else z3.Implies(s1.obj(ent).f["is_neighbour"], same))
+        if updated and name == "get_entry":
+            # the packet just processed created / refreshed this very entry
+            v = ent
+            yield s1.ghost_append("lt_entries", (key, v)), v
+            return
         v = ent if name == "ensure_entry" else Opt(z3.Bool(e.fresh("loct_absent")), ent)
         yield s1.ghost_append("lt_entries", (key, v)), v
         return
@@ -32,6 +52,11 @@ def h_location_table(e, st, o, name, args, kwargs):
         g = dict(st.ghost)
         g.pop("lt_entries", None)            # the table changed: earlier lookups say nothing about later ones
         s1 = st._clone(ghost=g).ghost_append("lt_updates", TupleV([StrV(name)] + list(args)))
+        hdr = args[0]
+        src = hdr.f["gn_addr"] if "gn_addr" in getattr(hdr, "f", {}) else hdr.f["so_pv"].f["gn_addr"]
+        g2 = dict(s1.ghost)
+        g2["lt_last_key"] = (src,)
+        s1 = s1._clone(ghost=g2)
         yield s1, NONE
         if name != "new_shb_packet":
             yield st, RaiseV(ExcV("DuplicatedPacketException",
@@ -65,7 +90,51 @@ def h_sign_service(e, st, o, name, args, kwargs):
     raise Unsupported(f"sign_service.{name}")
 
 
+def _fresh_counter(e, st):
+    c = e.T.const(e.fresh("ls_count"))
+    return st.assume(c >= e.intval(0)), c
+
+
+def _fresh_buffer(e, st):
+    """BOUNDED stand-in: a buffered-request list of length 0, 1 or 2 (chosen by the path), see DESIGN C01"""
+    from pyvc.shapes import Maker
+    from .shapes_geonet import gnreq, PTT_GUC
+    e.used_assumptions.add("BOUNDED: LS packet buffers are explored with 0..2 buffered requests only")
+    n = e.__dict__.setdefault("_buf_len", 2)
+    items = []
+    for i in range(n):
+        st, r = Maker(e).make(st, gnreq(PTT_GUC), e.fresh("buffered_req"))
+        # buffer invariant (assumed): only requests accepted by gn_data_request_guc are ever buffered
+        st = st.assume(e.spec_bool(st, "request_ok(r) and r.destination is not None", {"r": r}, "assume", "spec_geonet"))
+        items.append(r)
+    return st.alloc(Obj(None, "list", None, items))
+
+
 def setup(e):
+    from pyvc.models import make_keyed_map_handler, _fresh_timer
+    e.opaque_handlers["ls_timers"] = make_keyed_map_handler(_fresh_timer)
+    e.opaque_handlers["ls_counters"] = make_keyed_map_handler(_fresh_counter)
+    e.opaque_handlers["ls_buffers"] = make_keyed_map_handler(_fresh_buffer)
     e.opaque_handlers["location_table"] = h_location_table
     e.opaque_handlers["sized"] = h_sized
     e.opaque_handlers["sign_service"] = h_sign_service
+
+
+def h_verify_service(e, st, o, name, args, kwargs):
+    e.used_assumptions.add("VerifyService.verify seen from the Router: returns an arbitrary SNVERIFYConfirm (report, "
+                           "plain_message); the service itself is verified under C03/C09")
+    if name != "verify":
+        raise Unsupported(f"verify_service.{name}")
+    from pyvc.shapes import Maker
+    shape = T.rec("flexstack.security.sn_sap:SNVERIFYConfirm", certificate_id=T.bytes(0, 8), its_aid=T.bytes(0, 8),
+                  permissions=T.bytes(0, 64), plain_message=T.bytes(0, 2000))
+    s1, conf = Maker(e).make(st, shape, e.fresh("verify_confirm"))
+    yield s1.ghost_append("verify_calls", TupleV([args[0], conf])), conf
+
+
+_prev_setup = setup
+
+
+def setup(e):        # noqa: F811
+    _prev_setup(e)
+    e.opaque_handlers["verify_service"] = h_verify_service
